@@ -3,7 +3,7 @@
 import sys
 sys.path.insert(0, '/verif/lib'); sys.path.insert(0, '/verif/checks')
 import vlib, importlib
-for name in ['c01', 'c02', 'c16', 'c03', 'c12', 'c13']:
+for name in ['c01', 'c02', 'c16', 'c03', 'c12', 'c13', 'c11']:
     m = importlib.import_module(name)
     if hasattr(m, 'warm'):
         m.warm()
